@@ -124,7 +124,7 @@ pub fn generate(rng: &mut Rng, tier: Tier) -> Case {
             let mut chunk = *rng.pick(&bufs());
             let nm = rng.below(3);
             let mut mids = Vec::new();
-            let alpha = *rng.pick(&[0u8, 0, 1, 2, 3]);
+            let alpha = *rng.pick(&[0u8, 0, 1, 2, 3, 4]);
             let mut tiny = chunk == 1;
             for _ in 0..nm {
                 let m = match rng.below(6) {
@@ -144,7 +144,7 @@ pub fn generate(rng: &mut Rng, tier: Tier) -> Case {
             if tiny {
                 n = n.min(PIPE_SIZE as u32 + 70);
             }
-            if alpha == 3 {
+            if alpha >= 3 {
                 n = n.min(2 * PIPE_SIZE as u32);
             }
             if chunk == 0 {
@@ -162,13 +162,17 @@ pub fn generate(rng: &mut Rng, tier: Tier) -> Case {
             }
         }
         45..=69 => {
-            let alpha = *rng.pick(&[0u8, 1, 1, 3]);
+            let alpha = *rng.pick(&[0u8, 1, 1, 3, 4, 4]);
             let mut n = pick_n(rng, tier);
+            if alpha == 4 && rng.bool() {
+                // short payloads: the tail is what matters
+                n = rng.below(12);
+            }
             let chunk = *rng.pick(&bufs());
             if chunk == 1 {
                 n = n.min(PIPE_SIZE as u32 + 70);
             }
-            if alpha == 3 {
+            if alpha >= 3 {
                 n = n.min(2 * PIPE_SIZE as u32);
             }
             Kind::Subst {
